@@ -487,6 +487,44 @@ def xcheck(cid, case_id, n, seed):
     return runs, bad
 
 
+def search_witness(cid, case_id, trials=300, seed=0, budget_s=25):
+    """Bounded concrete search for a failing input of the SAME contract case after the solver refuted an obligation
+    whose counter-model does not replay (typically a loop-step obligation: its model is a havoc'd loop-head state, not
+    an input): random small pre-states, engine in concrete mode; a run on which an ensures clause is false and on which
+    CPython agrees with the engine is a genuine failing input.  -> cex dict | None"""
+    c = REGISTRY[cid]
+    rng = random.Random(seed * 7919 + 13)
+    t0 = time.time()
+    for i in range(trials):
+        if time.time() - t0 > budget_s:
+            break
+        try:
+            r = run_conc(cid, case_id, {}, seed=rng.randrange(1 << 30))
+        except (PathAbort, Unsupported, PyRaise):
+            continue
+        except Exception:
+            continue
+        failed = [k for k, v in r["clauses"].items() if v is False and not any(r["regions"].get(x) for x in ())]
+        if not failed:
+            continue
+        rep = {"engine": r["outcome"], "clause_value": False, "regions": r["regions"]}
+        if c.xcheck:
+            try:
+                nat = run_native(cid, case_id, r["oracle"])
+            except Exception:
+                continue
+            if not same_outcome(r["outcome"], nat):
+                continue
+            rep["native"] = nat
+            rep["status"] = "reproduced"
+        else:
+            rep["status"] = "reproduced-engine-only"
+        return {"oracle": jsonable(r["oracle"]), "exit": r["outcome"]["exit"], "backend": "concrete-search", "replay": rep,
+                "clause_override": failed[0],
+                "found_by": "bounded concrete search of the same contract case (trial %d of at most %d)" % (i + 1, trials)}
+    return None
+
+
 def replay(cid, case_id, clause, oracle):
     """Validate a counter-model: engine(conc) must falsify the clause, native must agree with engine.
     -> dict(status: reproduced|engine-mismatch|model-not-confirmed, ...)"""
